@@ -1,0 +1,67 @@
+/*
+ * Atree - Scalable Arrays and Ordered Maps
+ *
+ * Copyright Flow Foundation
+ *
+ * Licensed under the Apache License, Version 2.0 (the "License");
+ * you may not use this file except in compliance with the License.
+ * You may obtain a copy of the License at
+ *
+ *   http://www.apache.org/licenses/LICENSE-2.0
+ *
+ * Unless required by applicable law or agreed to in writing, software
+ * distributed under the License is distributed on an "AS IS" BASIS,
+ * WITHOUT WARRANTIES OR CONDITIONS OF ANY KIND, either express or implied.
+ * See the License for the specific language governing permissions and
+ * limitations under the License.
+ */
+
+//go:build verif
+
+package atree
+
+//@ # ---------------------------------------------------------------- array.go (C01 root identity, C05 root shape, C06 prefix swap, C09, C10, C11)
+
+//@ # ghost protocol for C10: notified counts calls of the parent-notification step; it is defined by notifyParentIfNeeded
+//@ ghost notified : int
+
+//@ # a parent updater may rewrite the parent's tree and its storage; it does not touch the child that calls it (A2/F)
+//@ functype parentUpdater() (found, err)
+//@   modifies heap
+
+//@ func (a *Array) notifyParentIfNeeded() (err)  serves C10
+//@   ghostdef notified == old(notified) + 1
+//@   ensures err == nil && old(a.parentUpdater) == nil ==> a.parentUpdater == nil
+//@   modifies heap, ghost.notified
+
+//@ func (a *Array) splitRoot() (err)  serves C01 C03 C05 C06 C09
+//@   requires a.Storage != nil && a.root != nil && isArr(a.root) && sto[hdrOf(a.root).slabID] == a.root && hdrOf(a.root).slabID != SlabIDUndefined
+//@   requires is(a.root, *ArrayDataSlab) ==> wfADS(as(a.root, *ArrayDataSlab)) && elemsFit(as(a.root, *ArrayDataSlab)) && !as(a.root, *ArrayDataSlab).inlined &&
+//@        as(a.root, *ArrayDataSlab).extraData != nil && as(a.root, *ArrayDataSlab).header.size > maxThreshold &&
+//@        as(a.root, *ArrayDataSlab).header.size <= maxThreshold + maxInlineArrayElementSize
+//@   requires is(a.root, *ArrayMetaDataSlab) ==> wfMeta(as(a.root, *ArrayMetaDataSlab)) && as(a.root, *ArrayMetaDataSlab).header.size > maxThreshold &&
+//@        as(a.root, *ArrayMetaDataSlab).header.size <= maxThreshold + 14
+//@   ensures err != nil ==> categorised(err)
+//@   ensures[C01] err == nil ==> is(a.root, *ArrayMetaDataSlab) && fresh(a.root) && hdrOf(a.root).slabID == old(hdrOf(a.root).slabID) &&
+//@        hdrOf(a.root).count == old(hdrOf(a.root).count)
+//@   ensures[C05] err == nil ==> len(as(a.root, *ArrayMetaDataSlab).childrenHeaders) == 2 && wfMeta(as(a.root, *ArrayMetaDataSlab)) &&
+//@        hdrBand(as(a.root, *ArrayMetaDataSlab).childrenHeaders[0]) && hdrBand(as(a.root, *ArrayMetaDataSlab).childrenHeaders[1])
+//@   ensures[C06] err == nil ==> as(a.root, *ArrayMetaDataSlab).extraData == old(ite(is(a.root, *ArrayDataSlab), as(a.root, *ArrayDataSlab).extraData, as(a.root, *ArrayMetaDataSlab).extraData)) &&
+//@        as(a.root, *ArrayMetaDataSlab).header.size == 40
+//@   ensures[C09] err == nil ==> metaLinked(as(a.root, *ArrayMetaDataSlab))
+//@   ensures[C01 C03] err == nil ==> has(stored, a.root) && has(stored, sto[as(a.root, *ArrayMetaDataSlab).childrenHeaders[0].slabID]) && has(stored, sto[as(a.root, *ArrayMetaDataSlab).childrenHeaders[1].slabID])
+//@   modifies a.root, ArrayDataSlab.elements, ArrayDataSlab.header, ArrayDataSlab.next, ArrayDataSlab.extraData,
+//@        ArrayMetaDataSlab.childrenHeaders, ArrayMetaDataSlab.childrenCountSum, ArrayMetaDataSlab.header, ArrayMetaDataSlab.extraData,
+//@        ghost.sto, ghost.stored, ghost.touched, alloc
+
+//@ func (a *Array) promoteChildAsNewRoot(childID) (err)  serves C01 C03 C05 C06 C09
+//@   requires a.Storage != nil && is(a.root, *ArrayMetaDataSlab) && isArr(sto[childID]) && sto[childID] != a.root && childID != hdrOf(a.root).slabID &&
+//@        hdrOf(sto[childID]).slabID == childID && as(a.root, *ArrayMetaDataSlab).extraData != nil
+//@   requires is(sto[childID], *ArrayDataSlab) ==> wfADS(as(sto[childID], *ArrayDataSlab)) && !as(sto[childID], *ArrayDataSlab).inlined && as(sto[childID], *ArrayDataSlab).extraData == nil
+//@   ensures err != nil ==> categorised(err)
+//@   ensures[C01] err == nil ==> a.root == old(sto[childID]) && hdrOf(a.root).slabID == old(hdrOf(a.root).slabID) && hdrOf(a.root).count == old(hdrOf(sto[childID]).count)
+//@   ensures[C06] err == nil && is(a.root, *ArrayDataSlab) ==> wfADS(as(a.root, *ArrayDataSlab)) &&
+//@        as(a.root, *ArrayDataSlab).extraData == old(as(a.root, *ArrayMetaDataSlab).extraData)
+//@   ensures[C09] err == nil ==> sto[childID] == nil && sto[hdrOf(a.root).slabID] == a.root
+//@   ensures[C01 C03] err == nil ==> has(stored, a.root)
+//@   modifies a.root, ArrayDataSlab.header, ArrayDataSlab.extraData, ArrayMetaDataSlab.header, ArrayMetaDataSlab.extraData, ghost.sto, ghost.stored, ghost.touched, alloc
